@@ -211,7 +211,13 @@ def source_checks():
         out[k + ".rpdict.init"] = _decl(s, r"size_t reservedInts = (.*?);")
         out[k + ".rpdict.loop"] = _rpdict_loop(s)
         g = _growth(s, "reservedStrings")
-        out[k + ".text.check"] = g[0] if len(g) == 1 else g
+        if kind == "RPHTFC":      # per-bucket check + the check before the two trailing bytes the header decoder reads ahead
+            out[k + ".text.check"] = g[0] if len(g) == 2 else g
+            out[k + ".tail.check"] = g[1] if len(g) == 2 else None
+            m = re.search(r"delete\[\] tmp;(.*?)xblStrings\.push_back\(bytesStrings \+ 1\);", s, re.S)
+            out[k + ".tail.writes"] = _norm(re.sub(r"while.*?;", "", m.group(1), flags=re.S)) if m else None
+        else:
+            out[k + ".text.check"] = g[0] if len(g) == 1 else g
         out[k + ".text.required"] = canon(_decl_raw(s, r"size_t required =(.*?);"), s)
         out[k + ".text.init"] = _decl(s, r"size_t reservedStrings = (.*?);")
         out[k + ".tmp"] = _decl(s, r"uchar \*tmp = new uchar\[(.*?)\];")
@@ -220,7 +226,10 @@ def source_checks():
         s = _src("StringDictionary%s.cpp" % kind)
         k = kind.lower()
         g = _growth(s, "reservedStrings")
-        out[k + ".text.check"] = g[0] if len(g) == 1 else g
+        out[k + ".text.check"] = g[0] if len(g) == 2 else g
+        out[k + ".tail.check"] = g[1] if len(g) == 2 else None       # before the two bytes the header decoder reads ahead
+        m = re.search(r"delete\[\] tmp;(.*?)xblStrings\.push_back\(bytesStrings\);", s, re.S)
+        out[k + ".tail.writes"] = _norm(re.sub(r"while.*?;", "", re.sub(r"if \(textSubstr.*?;", "", m.group(1), flags=re.S), flags=re.S)) if m else None
         out[k + ".text.init"] = _decl(s, r"size_t reservedStrings = (.*?);")
         out[k + ".tmp"] = _decl(s, r"uchar \*tmp = new uchar\[(.*?)\];")
     s = _src("StringDictionaryHASHHF.cpp")
@@ -256,6 +265,13 @@ _RPLOOP = ("uintzero=pbeg-1;for(;pbeg<pend;pbeg++){intc=(int)(dict->textStrings[
            "else{zero=pbeg;ends++;rpdict[ptrpdict]=255;ptrpdict++;rpdict[ptrpdict]=0;}ptrpdict++;}")
 
 EXPECTED = {
+    "htfc.tail.check": "(2+bytesStrings)",
+    "htfc.tail.writes": "bytesStrings++;textStrings[bytesStrings]=0;textStrings[bytesStrings+1]=0;bytesStrings+=2;",
+    "hhtfc.tail.check": "(2+bytesStrings)",
+    "hhtfc.tail.writes": "bytesStrings++;textStrings[bytesStrings]=0;textStrings[bytesStrings+1]=0;bytesStrings+=2;",
+    # RPHTFC tail: Capacity2Proofs.tail2_ok (two bytes written after `bytesStrings + 2 <= reserved` was established)
+    "rphtfc.tail.check": "(2+bytesStrings)",
+    "rphtfc.tail.writes": "textStrings[bytesStrings]=0;textStrings[bytesStrings+1]=0;bytesStrings+=2;",
     # site 1: Capacity2Defs.chk_rp / rp_ints_pos / rp_ctor_in_bounds (R0 = elements)
     "rpfc.rpdict.check": "ptrpdict+(size_t)bucketsize*(maxlength+6)",
     "rphtfc.rpdict.check": "ptrpdict+(size_t)bucketsize*(maxlength+6)",
@@ -295,8 +311,8 @@ EXPECTED = {
     "reallocate.uchar": "len*2",
     "reallocate.int": "len*2",
     # every Reallocate call site has a theorem (PFC: CapacityProofs.v, the others: Capacity2Proofs.v)
-    "sites": {"StringDictionaryHASHHF.cpp": 2, "StringDictionaryHHTFC.cpp": 1, "StringDictionaryHTFC.cpp": 1, "StringDictionaryPFC.cpp": 1,
-              "StringDictionaryRPFC.cpp": 2, "StringDictionaryRPHTFC.cpp": 2},
+    "sites": {"StringDictionaryHASHHF.cpp": 2, "StringDictionaryHHTFC.cpp": 2, "StringDictionaryHTFC.cpp": 2, "StringDictionaryPFC.cpp": 1,
+              "StringDictionaryRPFC.cpp": 2, "StringDictionaryRPHTFC.cpp": 3},
 }
 
 THEOREMS = {
